@@ -21,7 +21,7 @@ INFO = {
     "same result for LR (when both construct) and the same SET of call_actions results over the GLR forests.  Greedy "
     "pairs: same acceptance as the non-greedy twin, and the greedy GLR forest has exactly one tree whose result equals "
     "that of the non-greedy tree maximising the consumption of the greedy repetitions from left to right.",
-    "bounds": {"quick": {"N": 5, "pairs": 17, "greedy": 7}, "thorough": {"N": 6}},
+    "bounds": {"quick": {"N": 5, "pairs": "21 (incl. a rule written as two blocks with groups in both, and two multi-file pairs: sugar on an imported rule; root and imported file each repeating an own rule of the same name)", "greedy": 7}, "thorough": {"N": 6}},
     "outside": "inputs longer than N; rule shapes other than the listed pairs",
     "assumptions": ["get_context stubbed; realize-atomic marks", "the plain-BNF expansions are hand-derived from docs/grammar_language.md"],
 }
@@ -66,11 +66,19 @@ PAIRS = {
                    "S: Bs 'x' Cs; Bs: Bs B | B; Cs: Cs ',' B | B; B: 'a' | 'z' | 'e';",
                    {"Bs": [APP, ONE], "Cs": [APPS, ONE], "B": [lambda _, n: 1, lambda _, n: 0, lambda _, n: ""]},
                    {"B": [lambda _, n: 1, lambda _, n: 0, lambda _, n: ""]}),
+    # one rule written as two blocks, groups in both (group rules are numbered per rule name)
+    "multi-block-groups": ("S: 'x' ('a' ('b')*)+ 'y'; S: 'z' ('e')+ 'w';",
+                           "S: 'x' Gs 'y' | 'z' Es 'w'; Gs: Gs G | G; G: 'a' Hs0; Hs0: Hs {nops} | EMPTY; Hs: Hs H | H; H: 'b'; Es: Es E | E; E: 'e';",
+                           {"Gs": [APP, ONE], "Hs": [APP, ONE], "Hs0": [FIRST, EMPTYL], "Es": [APP, ONE]}),
     "ambiguous-reps": ("S: 'a'* 'a'*;", "S: As0 As0; As0: As {nops} | EMPTY; As: As 'a' | 'a';", {"As": [APP, ONE], "As0": [FIRST, EMPTYL]}),
 }
 
 IMPORT_PAIR = ("import 'sub.pg' as s;\nS: s.Item+ 'x';\n", "Item: 'a'? 'b';\n",
                "S: Is 'x'; Is: Is I | I; I: Ao 'b'; Ao: 'a' | EMPTY;", {"Is": [APP, ONE], "Ao": [FIRST, NONE]})
+
+# the root and the imported file each have their own rule `Item` and both repeat it
+IMPORT_PAIR2 = ("import 'sub.pg' as s;\nS: Item+ 'x' s.T;\nItem: 'a';\n", "T: Item+;\nItem: 'b';\n",
+                "S: As 'x' T; As: As A | A; A: 'a'; T: Bs; Bs: Bs B | B; B: 'b';", {"As": [APP, ONE], "Bs": [APP, ONE]})
 
 # greedy text, non-greedy twin, indices (in S's RHS) of the greedy repetitions
 GREEDY = {
@@ -91,6 +99,7 @@ def cases(tier, seed):
         n_ = 4 if (tier == "quick" and nm == "falsy-plus") else N  # five terminals: one character less keeps the quick tier short
         out.append({"name": "pair:%s|N=%d" % (nm, n_), "params": {"kind": "pair", "pair": nm, "N": n_}, "budget_s": 3000})
     out.append({"name": "pair:imported|N=%d" % N, "params": {"kind": "pair", "pair": "__import__", "N": N}, "budget_s": 3000})
+    out.append({"name": "pair:imported, same rule name in both files|N=%d" % N, "params": {"kind": "pair", "pair": "__import2__", "N": N}, "budget_s": 3000})
     for nm in GREEDY:
         out.append({"name": "greedy:%s|N=%d" % (nm, N), "params": {"kind": "greedy", "pair": nm, "N": N}, "budget_s": 3000})
     out.append({"name": "twin:pair:star-sep", "params": {"kind": "pair", "pair": "star-sep", "N": 4, "twin": True}, "expect_refuted": True, "budget_s": 300})
@@ -148,8 +157,8 @@ def build(params, symbolic):
         return build_greedy(params, symbolic)
     N = params["N"]
     twin = params.get("twin")
-    if params["pair"] == "__import__":
-        root, sub, plain, acts = IMPORT_PAIR
+    if params["pair"] in ("__import__", "__import2__"):
+        root, sub, plain, acts = IMPORT_PAIR if params["pair"] == "__import__" else IMPORT_PAIR2
         sugar_acts = None
         mk_sugar = lambda: _grammar_from(root, sub)  # noqa
     else:
